@@ -383,3 +383,106 @@ def _is_next_switch(f, b):
     c = mir.strip_refs(c)
     return c[0] == "discr" and mir.strip_refs(c[1])[0] == "call" and isinstance(mir.strip_refs(c[1])[1], str) and \
         mir.strip_refs(c[1])[1].rsplit("::", 1)[-1] in ("next", "next_back")
+
+
+@rule("R-PROJ-PLUS", ["C17"])
+def r_proj_plus(cx):
+    """PROJ's `+` is a prefix of a token (`+proj=utm`): parse_proj removes it only where it *starts* a token - after
+    white space (` +`, `\\n+`) or at the very start of the text (trim_start_matches) - never wherever it occurs, which
+    would also eat the plus signs inside values (`+x_0=5e+5`, `+x=+12.5`)."""
+    n = 0
+    for name in sorted(cx.f.lib["fns"]):
+        if not name.startswith(PARSE):
+            continue
+        f = cx.f.fn(name)
+        for bb, t in f.calls():
+            tail = (f.callee(t) or "").rsplit("::", 1)[-1]
+            a = f.arg_terms(bb)
+            if len(a) < 2:
+                continue
+            pat = mir.strip_refs(a[1])
+            if pat[0] != "const" or not isinstance(pat[2], tuple) or len(pat[2]) != 2 or "+" not in str(pat[2][1]):
+                continue
+            p = str(pat[2][1])
+            if tail not in ("replace", "replacen", "trim_start_matches", "trim_matches", "trim_end_matches", "strip_prefix",
+                            "split", "trim_left_matches"):
+                continue
+            n += 1
+            if tail in ("trim_start_matches", "strip_prefix", "trim_left_matches"):
+                ok = p == "+"
+            elif tail in ("replace", "replacen"):
+                i = p.index("+")
+                ok = i > 0 and p[i - 1].isspace()
+            else:
+                ok = False
+            cx.ob("R-PROJ-PLUS", "%s/%s%d" % (name, tail, n - 1), ok,
+                  "`+` is removed as a token prefix (%s %r)" % (tail, p) if ok else
+                  "parse_proj removes `+` with %s(%r): also the plus signs inside parameter values (`x_0=5e+5`) are "
+                  "removed, truncating the value" % (tail, p), cx.where(t["span"]))
+    cx.count("R-PROJ-PLUS", "plus_patterns", n)
+
+
+@rule("R-PROJ-TIDY-INDEPENDENT", ["C17"])
+def r_proj_tidy_independent(cx):
+    """tidy_proj makes two unrelated repairs to a step: `a=` + `rf=` become `ellps=a,rf`, and `k=` becomes `k_0=`.
+    A step may need both (typical projinfo output: `+k=0.9996 ... +a=6378137 +rf=298.257222101`), so the search for
+    `k=` is not control dependent on the outcome of the a/rf decision: every path to the Ok return that has decided
+    the a/rf question either way goes on to the `k=` search."""
+    f = cx.f.fn("token::tidy_proj")
+
+    def const_arg(bb, lit):
+        return any(K._const_key(x) == lit for x in f.arg_terms(bb)[1:2])
+    ktests = [bb for bb, t in f.calls() if (f.callee(t) or "").rsplit("::", 1)[-1] in ("strip_prefix", "starts_with") and const_arg(bb, "k=")]
+    for name in sorted(cx.f.lib["fns"]):
+        if name.startswith("token::tidy_proj::{closure"):
+            g = cx.f.fn(name)
+            if any((g.callee(t) or "").rsplit("::", 1)[-1] in ("strip_prefix", "starts_with") and
+                   any(K._const_key(x) == "k=" for x in g.arg_terms(bb)[1:2]) for bb, t in g.calls()):
+                for bb, t in f.calls():
+                    if any(a[0] == "agg" and isinstance(a[1], tuple) and a[1][0] == "closure" and a[1][1] == name for a in f.arg_terms(bb)):
+                        ktests.append(bb)
+    pushes = [bb for bb, t in f.calls() if (f.callee(t) or "").endswith("Vec::<T, A>::push")]
+    if not ktests or not pushes:
+        cx.ob("R-PROJ-TIDY-INDEPENDENT", "tidy_proj/k-after-ellps", False,
+              "anchor-missing: tidy_proj has no `k=` search or no ellps= insertion", cx.where(f.d["span"]))
+        cx.count("R-PROJ-TIDY-INDEPENDENT", "repairs", 0)
+        return
+    # the search loop / call that contains the k= test: entered from a block E; the a/rf decision is the set of switches
+    # the ellps= push is control dependent on
+    cd = slicing.control_deps(f)
+
+    def trans(b):
+        seen, work = set(), [b]
+        while work:
+            x = work.pop()
+            for a in cd.get(x, ()):
+                if a not in seen:
+                    seen.add(a)
+                    work.append(a)
+        return seen
+    decision = set()
+    for p in pushes:
+        decision |= trans(p)
+    # exact criterion: from neither side of a switch the ellps= insertion depends on can an Ok result be reached without
+    # passing the k= search
+    oks = K.ok_blocks(f)
+    # the search as a whole: the loop around the test (an empty step makes zero iterations), or the adaptor call
+    ktests = [(f.innermost_loop(kb).header if f.innermost_loop(kb) is not None else kb) for kb in ktests]
+    bad = []
+    for d in sorted(decision):
+        t = f.term(d)
+        if t["k"] != "switch":
+            continue
+        for s_ in set(f.succ[d]):
+            if s_ in ktests:
+                continue
+            reach = f.reach_from([s_], avoid=tuple(ktests))
+            if any(o in reach for o in oks):
+                bad.append(d)
+    ok = not bad
+    cx.ob("R-PROJ-TIDY-INDEPENDENT", "tidy_proj/k-after-ellps", ok,
+          "the k= search is reached whichever way the a / rf question is decided" if ok else
+          "tidy_proj: after deciding the a / rf question one way, the function returns without looking for `k=`: a step "
+          "with a=, rf= and the deprecated k= keeps its k=, which Rust Geodesy ignores (scale 1 instead of k)",
+          cx.where(f.term(bad[0])["span"]) if bad else cx.where(f.d["span"]))
+    cx.count("R-PROJ-TIDY-INDEPENDENT", "repairs", 2)
